@@ -29,6 +29,9 @@ pub enum Step {
     Send(bool, u16, u8),
     /// several messages back-to-back in one write
     Burst(u8),
+    /// one message in two fragments with a control frame (unsolicited Pong, or Ping) between them, as RFC 6455 §5.4
+    /// allows; (text?, pong?, fragments in separate writes?)
+    SendAroundControl(bool, bool, bool),
     Ping,
     Sleep(u8),
 }
@@ -239,6 +242,27 @@ fn run_client(idx: usize, sc: &ClientScript, addr: SocketAddr, shared: Arc<Share
                     bytes.extend(ws::encode(&RFrame { fin: k == n - 1, rsv: [false; 3], opcode: if k == 0 { if *text { 1 } else { 2 } } else { 0 }, mask: key(), payload: p[a..b].to_vec() }));
                 }
                 send(&bytes);
+                res.sent.push(p);
+            }
+            Step::SendAroundControl(text, pong, separate) => {
+                let p = payload(idx, seq, 9);
+                seq += 1;
+                let half = p.len() / 2;
+                let f1 = ws::encode(&RFrame { fin: false, rsv: [false; 3], opcode: if *text { 1 } else { 2 }, mask: key(), payload: p[..half].to_vec() });
+                let ctl = ws::encode(&RFrame { fin: true, rsv: [false; 3], opcode: if *pong { 10 } else { 9 }, mask: key(), payload: b"mid".to_vec() });
+                let f2 = ws::encode(&RFrame { fin: true, rsv: [false; 3], opcode: 0, mask: key(), payload: p[half..].to_vec() });
+                if *separate {
+                    send(&f1);
+                    std::thread::sleep(Duration::from_millis(3));
+                    send(&ctl);
+                    std::thread::sleep(Duration::from_millis(3));
+                    send(&f2);
+                } else {
+                    let mut bytes = f1;
+                    bytes.extend(ctl);
+                    bytes.extend(f2);
+                    send(&bytes);
+                }
                 res.sent.push(p);
             }
             Step::Burst(n) => {
@@ -591,6 +615,7 @@ fn arb_scenario() -> impl Strategy<Value = Scenario> {
     let step = prop_oneof![
         5 => (any::<bool>(), any::<u16>(), any::<u8>()).prop_map(|(t, e, f)| Step::Send(t, e, f)),
         2 => any::<u8>().prop_map(Step::Burst),
+        1 => (any::<bool>(), any::<bool>(), any::<bool>()).prop_map(|(t, p, sep)| Step::SendAroundControl(t, p, sep)),
         1 => Just(Step::Ping),
         2 => any::<u8>().prop_map(Step::Sleep),
     ];
@@ -611,7 +636,7 @@ fn arb_scenario() -> impl Strategy<Value = Scenario> {
 }
 
 pub fn run(ctx: &Ctx) {
-    ctx.rule("scenarios of 1..8 reference clients (scripts over send text/binary in 1..3 fragments, bursts of 2..5 messages in one write, ping, short sleeps; ending with Close, vanishing abruptly with the heartbeat on, or staying silent to the heartbeat pings and sending Close just as the pong timeout elapses) against AsyncWebsocketApp linked to a real App, handler pools of 1..8 threads, poll interval none..10 ms, an external AsyncSender issuing unicasts and broadcasts at generated moments, ending with shutdown; payloads carry (client#, seq#). Invariants over the handler event log and each client's received frames: connect and disconnect exactly once per client, each client message dispatched exactly once (multiset), with a 1-thread pool connect before the first message, messages in send order and nothing after disconnect; every echo unicast reaches only and exactly its client; external messages at most once, unicasts only at their addressee, required ones delivered; run() returns after the shutdown signal. Non-trivial: >=2 clients with a broadcast, an abrupt disconnect, or several messages in one write; distinct by scenario");
+    ctx.rule("scenarios of 1..8 reference clients (scripts over send text/binary in 1..3 fragments, bursts of 2..5 messages in one write, a fragmented message with a Pong or Ping between its fragments, ping, short sleeps; ending with Close, vanishing abruptly with the heartbeat on, or staying silent to the heartbeat pings and sending Close just as the pong timeout elapses) against AsyncWebsocketApp linked to a real App, handler pools of 1..8 threads, poll interval none..10 ms, an external AsyncSender issuing unicasts and broadcasts at generated moments, ending with shutdown; payloads carry (client#, seq#). Invariants over the handler event log and each client's received frames: connect and disconnect exactly once per client, each client message dispatched exactly once (multiset), with a 1-thread pool connect before the first message, messages in send order and nothing after disconnect; every echo unicast reaches only and exactly its client; external messages at most once, unicasts only at their addressee, required ones delivered; run() returns after the shutdown signal. Non-trivial: >=2 clients with a broadcast, an abrupt disconnect, or several messages in one write; distinct by scenario");
     ctx.assume("interleavings come from the OS scheduler plus generated delays (no controlled scheduler); ordering is demanded only with a 1-thread handler pool; clients answer heartbeat pings; heartbeat 100 ms / timeout 1.5 s");
     let cases = ctx.tier.pick(192u32, 3000u32);
     let nshards = 16;
